@@ -32,6 +32,13 @@ func (e *Eng) specBool(x SpecExpr, c *ctx) string {
 		return "(or " + strings.Join(ps, " ") + ")"
 	case *SNot:
 		return smtNot(e.specBool(x.X, c))
+	case *SOld:
+		if c.old == nil {
+			panic("spec: old() without pre-state")
+		}
+		nc := *c
+		nc.st = c.old
+		return e.specBool(x.X, &nc)
 	case *SQuant:
 		nb := map[string]Val{}
 		for k, v := range c.bound {
